@@ -62,7 +62,8 @@ func c05exec(c *Ctx, st *c05state, op Op) Ev {
 	name := gets(op, "op")
 	ev := Ev{"op": name, "kind": "small", "lastpos": []int{}, "dir": st.dir, "upd": 1, "e": [2]int{0, 0}, "i": geti(op, "i"), "vs": [][2]int{},
 		"ret": [2]int{0, 0}, "rok": true, "ri": -1, "peek": [3]int{0, 0, 0}, "len": 0, "empty": true,
-		"front": [2]int{0, 0}, "arr": [][2]int{}, "moves": [][2]int{}, "target": geti(op, "target"), "out": [][2]int{}, "spare": geti(op, "spare")}
+		"front": [2]int{0, 0}, "arr": [][2]int{}, "moves": [][2]int{}, "target": geti(op, "target"), "out": [][2]int{}, "spare": geti(op, "spare"),
+		"blind": geti(op, "blind")}
 	guard(ev, func() {
 		st.moves = nil
 		switch name {
@@ -114,6 +115,14 @@ func c05exec(c *Ctx, st *c05state, op Op) Ev {
 			die("C05: unknown op %q", name)
 		}
 		ev["dir"] = st.dir
+		if geti(op, "blind") == 1 {
+			// no observer is called between this call and the next: the queue must not rely on
+			// being looked at to put itself in order
+			if st.moves != nil {
+				ev["moves"] = st.moves
+			}
+			return
+		}
 		ev["len"] = st.q.Len()
 		ev["empty"] = st.q.IsEmpty()
 		ev["front"] = hj(st.q.Front())
@@ -158,9 +167,23 @@ func c05random(c *Ctx, label string, nh int, distinct bool) {
 			if distinct && kind == "sort" {
 				kind = "bypos"
 			}
+			blind := false
+			if label == "c05" && i%12 == 4 {
+				kind, blind = "mixed", true // "mixed" with most calls unobserved
+			}
 			h := c.NewHist(kind)
+			if blind {
+				h = c.NewHist("mixed-blind")
+			}
 			st := &c05state{dir: 1}
-			do := func(op Op) Ev { ev := c05exec(c, st, op); h.Emit(ev); return ev }
+			do := func(op Op) Ev {
+				if blind && gets(op, "op") != "new" && rng.Intn(3) > 0 {
+					op["blind"] = 1
+				}
+				ev := c05exec(c, st, op)
+				h.Emit(ev)
+				return ev
+			}
 			nextID := 0
 			used := map[int]bool{}
 			prioRange := []int{3, 6, 12, 100}[rng.Intn(4)]
